@@ -252,7 +252,7 @@ def run_group(stage_dir, harnesses, jobs=16, timeout_s=300, stub=False, cbmc_arg
             d["n_checks"] += 1
             if stt == "Success":
                 d["n_ok"] += 1
-                if c.get("function", "").startswith(h.module + "::verif"):
+                if re.match(r"C\d\d/", c.get("description", "")):
                     d["labels"].append(c.get("description", ""))
             elif stt == "Failure":
                 if cat == "unwind" or "unwinding assertion" in c.get("description", ""):
